@@ -92,6 +92,7 @@ func execOn(s *Store, tx *txState, ctx context.Context, query string, args []int
 	if err != nil {
 		return nil, err
 	}
+	s.pausePoint()
 	res, err := s.Exec(tx, ctxTag(ctx), query, vals)
 	if err != nil {
 		return nil, err
@@ -104,6 +105,7 @@ func queryOn(s *Store, tx *txState, ctx context.Context, query string, args []in
 	if err != nil {
 		return nil, err
 	}
+	s.pausePoint()
 	set, err := s.Query(tx, ctxTag(ctx), query, vals)
 	if err != nil {
 		return nil, err
@@ -118,6 +120,7 @@ func rowOn(s *Store, tx *txState, ctx context.Context, query string, args []inte
 		rowOf[r] = &rowsRef{s: s, err: err}
 		return r
 	}
+	s.pausePoint()
 	set, err := s.Query(tx, ctxTag(ctx), query, vals)
 	rowOf[r] = &rowsRef{s: s, set: set, pos: -1, err: err}
 	return r
@@ -127,6 +130,7 @@ func rowOn(s *Store, tx *txState, ctx context.Context, query string, args []inte
 
 func Sym_DB_BeginTx(db *sql.DB, ctx context.Context, opts *sql.TxOptions) (*sql.Tx, error) {
 	s := pools[db]
+	s.pausePoint()
 	st, err := s.Begin(ctxTag(ctx))
 	if err != nil {
 		return nil, err
@@ -207,6 +211,7 @@ func Sym_Tx_StmtContext(tx *sql.Tx, ctx context.Context, stmt *sql.Stmt) *sql.St
 }
 func Sym_Tx_Commit(tx *sql.Tx) error {
 	r := txOf[tx]
+	r.s.pausePoint()
 	err := r.s.Commit(r.tx)
 	if err != errTxDone {
 		r.closeStmts()
